@@ -373,7 +373,7 @@ class Prop:
                    "(the reading under which all four quantifier helpers treat `which` alike)",
                    "formulas are built only through the logic API, hence in TT format (Tucker factors appear only via tn.round)",
                    "N <= 4 symbols (helpers N <= 5); rounding uses the default eps=1e-14"]
-    THEOREMS = ["C15_symbol", "C15_true", "C15_false", "C15_helpers", "C15_formula", "C15_is_contradiction", "C15_is_tautology", "C15_is_satisfiable", "C15_implies", "C15_equiv"]
+    THEOREMS = ["C15_symbol", "C15_true", "C15_false", "C15_helpers", "C15_relevance_test", "C15_only", "C15_formula", "C15_is_contradiction", "C15_is_tautology", "C15_is_satisfiable", "C15_implies", "C15_equiv"]
 
     # ---------------------------------------------------------------- generation
     def generate(self, rng, tier):
